@@ -6,11 +6,15 @@ package main
 // values, and the observation type both sides are reduced to.
 
 import (
+	"bufio"
 	"fmt"
+	"io"
 	"os"
+	"os/exec"
 	"strconv"
 	"strings"
 	"sync"
+	"time"
 
 	"github.com/ohler55/slip"
 	"github.com/ohler55/slip/pkg/gi"
@@ -396,8 +400,9 @@ func evCanonTo(b *strings.Builder, obj slip.Object) {
 	}
 }
 
-// evRunImpl evaluates the program on the real slip: fresh scope, fresh mutexes vmx0…, trace reset.
-func evRunImpl(cs evCase) evObs {
+// evRunImplLocal evaluates the program on the real slip in this process: fresh scope, fresh
+// mutexes vmx0…, trace reset.
+func evRunImplLocal(cs evCase) evObs {
 	evDefine()
 	scope := slip.NewScope()
 	evTrace = evTrace[:0]
@@ -405,15 +410,16 @@ func evRunImpl(cs evCase) evObs {
 	scope.InterruptCheck = func() {
 		evSteps++
 		if evSteps > evStepMax {
-			// the panic is raised as a slip condition (a foreign panic value would be wrapped by
-			// slip's own condition construction, which evaluates functions and would trip again)
-			evTrips++
-			if evTrips > 40 {
-				fmt.Fprintf(os.Stderr, "harness: step limit tripped %d times, program does not stop: %s\n", evTrips, cs.src)
-				os.Exit(2)
+			if evTrips == 0 {
+				// raised once, as a slip condition (a foreign panic value would be wrapped by slip's own
+				// condition construction, which evaluates functions and would trip again)
+				evTrips = 1
+				slip.ErrorPanic(scope, 0, "verif step limit")
 			}
-			evSteps = evStepMax - 2000
-			slip.ErrorPanic(scope, 0, "verif step limit")
+			if evSteps > 20*evStepMax {
+				// the program swallowed the condition and keeps running: give up on this process
+				os.Exit(3)
+			}
 		}
 	}
 	mx := make([]*gi.Mutex, evNMutex)
@@ -444,6 +450,119 @@ func evRunImpl(cs evCase) evObs {
 		obs.kind, obs.value, obs.msg = "err", o.Class, o.Msg
 	}
 	return obs
+}
+
+// ---------------------------------------------------------------------------------------------
+// worker process: the implementation runs in a child (`vh evalworker`, same binary) so that a
+// program on which slip never returns (a Go-level loop, runaway recursion) or dies can be given up
+// after a deadline; the child is restarted on demand. One line per program, one reply line.
+
+func init() { props["evalworker"] = func(c *lib.Ctx) { evWorkerLoop() } }
+
+func evWorkerLoop() {
+	in := bufio.NewReaderSize(os.Stdin, 1<<20)
+	out := bufio.NewWriter(os.Stdout)
+	for {
+		line, err := in.ReadString('\n')
+		if line = strings.TrimRight(line, "\n"); line != "" {
+			forms, perr := sxParseAll(line)
+			var o evObs
+			if perr != nil {
+				o = evObs{kind: "fault", value: "harness-parse"}
+			} else {
+				o = evRunImplLocal(evCase{src: line, forms: forms})
+			}
+			fmt.Fprintf(out, "%s\t%s\t%s\t%s\t%s\n", o.kind, o.value, o.trace, o.locks, lib.Hex(o.msg))
+			out.Flush()
+		}
+		if err != nil {
+			os.Exit(0)
+		}
+	}
+}
+
+type evWorkerProc struct {
+	cmd   *exec.Cmd
+	in    io.WriteCloser
+	lines chan string
+}
+
+var (
+	evW        *evWorkerProc
+	evRestarts int
+	evGaveUp   []string
+)
+
+var evDeadline = 20 * time.Second
+
+func evWorkerStart() *evWorkerProc {
+	cmd := exec.Command(os.Args[0], "evalworker")
+	cmd.Stderr = io.Discard // redefinition warnings of replayed / shrunk programs
+	in, err := cmd.StdinPipe()
+	if err != nil {
+		fmt.Fprintln(os.Stderr, "harness: cannot start worker:", err)
+		os.Exit(2)
+	}
+	outp, err := cmd.StdoutPipe()
+	if err != nil {
+		fmt.Fprintln(os.Stderr, "harness: cannot start worker:", err)
+		os.Exit(2)
+	}
+	if err = cmd.Start(); err != nil {
+		fmt.Fprintln(os.Stderr, "harness: cannot start worker:", err)
+		os.Exit(2)
+	}
+	w := &evWorkerProc{cmd: cmd, in: in, lines: make(chan string, 1)}
+	go func() {
+		r := bufio.NewReaderSize(outp, 1<<20)
+		for {
+			line, err := r.ReadString('\n')
+			if err != nil {
+				close(w.lines)
+				return
+			}
+			w.lines <- strings.TrimRight(line, "\n")
+		}
+	}()
+	return w
+}
+
+// evRunImpl evaluates the program on the real slip (in the worker). A worker that does not answer
+// within the deadline or dies is observed as kind "hang" / "died".
+func evRunImpl(cs evCase) evObs {
+	if evW == nil {
+		evW = evWorkerStart()
+	}
+	w := evW
+	giveUp := func(kind string) evObs {
+		_ = w.cmd.Process.Kill()
+		_ = w.cmd.Wait()
+		evW = nil
+		evRestarts++
+		if len(evGaveUp) < 8 {
+			evGaveUp = append(evGaveUp, kind+": "+cs.src)
+		}
+		if os.Getenv("VERIF_EV_DEBUG") != "" {
+			fmt.Fprintf(os.Stderr, "worker %s on: %s\n", kind, cs.src)
+		}
+		return evObs{kind: kind}
+	}
+	if _, err := io.WriteString(w.in, cs.src+"\n"); err != nil {
+		return giveUp("died")
+	}
+	select {
+	case line, ok := <-w.lines:
+		if !ok {
+			return giveUp("died")
+		}
+		f := strings.Split(line, "\t")
+		if len(f) != 5 {
+			return giveUp("died")
+		}
+		return evObs{kind: f[0], value: f[1], trace: f[2], locks: f[3], msg: lib.Unhex(f[4])}
+	case <-time.After(evDeadline):
+		return giveUp("hang")
+	}
 }
 
 // ---------------------------------------------------------------------------------------------
